@@ -133,7 +133,9 @@ def gen_history(rng, special=None):
     rng.shuffle(order)
     h = dict(stations=stations, sessions=sessions, extra=extra, mr=mr, sched=sched, order=order,
              store_hist=rng.random() < 0.5, period=rng.choice([1, 5]), script_seed=rng.randint(0, 10**6),
-             np_seed=rng.randint(0, 10**6), constraint=rng.choice([None, None, 60, 1000]), special=special)
+             np_seed=rng.randint(0, 10**6), constraint=rng.choice([None, None, 60, 1000]), special=special,
+             start=[rng.choice([2019, 2020, 2021]), rng.randint(1, 12), rng.randint(1, 12), rng.randint(0, 23),
+                    rng.randint(0, 59), rng.randint(0, 59), rng.choice([0, 0, 250000, 123456])])
     return h
 
 
@@ -245,7 +247,8 @@ def build(h, scheduler):
         net.register_evse(make_evse(i, st), st["voltage"], 0)
     if h["constraint"]:
         net.add_constraint(Current(["S%d" % i for i in range(len(h["stations"]))]), h["constraint"], name="C0")
-    return Simulator(net, scheduler, EventQueue(make_events(h)), datetime.datetime(2020, 1, 1), period=h["period"],
+    return Simulator(net, scheduler, EventQueue(make_events(h)), datetime.datetime(*h.get("start", [2020, 1, 1])),
+                     period=h["period"],
                      store_schedule_history=h["store_hist"], verbose=False)
 
 
@@ -285,7 +288,7 @@ def norm(v):
     if isinstance(v, np.ndarray):
         return [list(v.shape)] + [norm(x) for x in v.tolist()]
     if isinstance(v, dict):
-        return [[str(k), norm(x)] for k, x in v.items()]
+        return [["%s:%s" % (type(k).__name__, k), norm(x)] for k, x in v.items()]
     if isinstance(v, (list, tuple)):
         return [norm(x) for x in v]
     if isinstance(v, datetime.datetime):
